@@ -1,4 +1,515 @@
 package main
 
-// placeholder until the scanner model (Front/Term.v) is wired: see c16Scanner in c16_scan.go
-func c16Scanner(c *Ctx, rng *Rng, cases []c16Case) {}
+// C16, scanner half: the model of Front/Term.v (extracted, bin/fomodel) against the scanner of the
+// tree under test (hooked in-process fc): scanTokenAt at every position, the whole token stream
+// (newTkz/tkzNext), ParseSInterP and reinterpretEscape, plus the keyword table.
+// Observables: token type, begin, length, payload (stringVal / intVal); "diagnostic" on both sides
+// counts as agreement whatever the message. A hang or death of the server, or a disagreement, is
+// first turned into a failing input of the real fc process (hang / fatal error / exit 0 without
+// output); only if that fails it is reported as a broken correspondence (no-failing-input-found).
+
+import (
+	"encoding/hex"
+	"fmt"
+	"os"
+	"path/filepath"
+	"sort"
+	"strings"
+	"sync"
+	"sync/atomic"
+	"time"
+)
+
+// small alphabet rich in quotes, backslashes, braces, slashes, stars, dollars, digits, newlines
+var c16Alpha = []string{"\"", "\"", "\\", "\\", "{", "}", "/", "/", "*", "$", "`", "0", "7", "9", "\n", "\n", " ", "\t",
+	"a", "l", "e", "t", "i", "f", "_", "Z", "|", ">", "<", "=", "-", "&", "%", "+", ".", ",", ":", ";", "(", ")", "[", "]",
+	"#", "'", "!", "\r", "\x00", "\xff", "\xc3"}
+
+var c16ScanHazards = []string{"//", "//x", "// x\n", "/*", "/**/", "/* */x", "/*/", "/* *", "1", "12", " 12", "12 ", "a", "a1_", "let", "let ", "_",
+	"$", "$\"", "$\"a\"", "$`a`", "$x", "\"", "\"a", "\"a\\", "\"a\\\"", "\"a\\\"\"", "`", "`a", "`a\\\"\n`", "{", "#", "|>", "||", "|", "<>", "<=", "<", ">=", ">", "&&", "&", "->", "-",
+	" \t /* c */ // d\n x", "\t", " ", "/", "/ ", "/\n", "a//", "a/*", "9//", "99999999999999999999 ", "package_info", "elif x", "\xff", "\x00"}
+
+var c16SInterpHazards = []string{"", "a", "{", "{a", "{a}", "a{b}c{d}e", "}", "{}", "{{}", "\\", "a\\", "\\{", "\\}", "\\{a\\}", "\\{{a}\\}", "%", "100%", "%{a}%", "\\n", "\\\\", "\\\\{a}", "{a\\}", "{a}{", "{a}{b", "{\\}", "\\%", "a{b}\\"}
+
+func c16RandBuf(rng *Rng, maxLen int) string {
+	n := rng.Intn(maxLen + 1)
+	var b strings.Builder
+	for i := 0; i < n; i++ {
+		if rng.Chance(1, 40) {
+			b.WriteByte(byte(rng.Intn(256)))
+		} else {
+			b.WriteString(Choose(rng, c16Alpha))
+		}
+	}
+	return b.String()
+}
+
+func c16Payload(t srvTok) string {
+	switch {
+	case t.Str != "":
+		return "s" + t.Str
+	case t.Int != 0:
+		return fmt.Sprintf("i%d", t.Int)
+	}
+	return "-"
+}
+
+func c16NormPayload(p string) string {
+	if p == "s" || p == "i0" {
+		return "-"
+	}
+	return p
+}
+
+// canonical forms shared by both sides
+func c16ImplScan(r srvResp) string {
+	if !r.Ok {
+		return "DIAG"
+	}
+	t := r.Toks[0]
+	if t.Type == "(EOF)" {
+		return "EOF"
+	}
+	return fmt.Sprintf("TOK %s %d %d %s", t.Type, t.Begin, t.Len, c16Payload(t))
+}
+
+func c16ModelScan(line string) string {
+	if strings.HasPrefix(line, "DIAG") {
+		return "DIAG"
+	}
+	f := strings.Fields(line)
+	if len(f) == 5 && f[0] == "TOK" {
+		f[4] = c16NormPayload(f[4])
+		return strings.Join(f, " ")
+	}
+	return line
+}
+
+func c16ImplTokens(r srvResp) string {
+	var b strings.Builder
+	if r.Ok {
+		b.WriteString("TOKS")
+	} else {
+		b.WriteString("DIAG")
+	}
+	for _, t := range r.Toks {
+		fmt.Fprintf(&b, " %s:%d:%d:%s", t.Type, t.Begin, t.Len, c16Payload(t))
+	}
+	return b.String()
+}
+
+func c16ModelTokens(line string) string {
+	if i := strings.Index(line, " | "); i >= 0 && strings.HasPrefix(line, "DIAG") {
+		line = line[:i]
+	}
+	f := strings.Fields(line)
+	for i := 1; i < len(f); i++ {
+		k := strings.LastIndex(f[i], ":")
+		if k >= 0 {
+			f[i] = f[i][:k+1] + c16NormPayload(f[i][k+1:])
+		}
+	}
+	return strings.Join(f, " ")
+}
+
+// the quoted strings of an oracle line `OK "fmt" ("v1" "v2")`
+func c16Quoted(line string) []string {
+	var out []string
+	for i := 0; i < len(line); i++ {
+		if line[i] != '"' {
+			continue
+		}
+		j := i + 1
+		for j < len(line) && line[j] != '"' {
+			if line[j] == '\\' {
+				j++
+			}
+			j++
+		}
+		if j >= len(line) {
+			panic("unterminated string in oracle line: " + line)
+		}
+		out = append(out, Unsq(line[i:j+1]))
+		i = j
+	}
+	return out
+}
+
+func c16HexList(xs []string) string {
+	var h []string
+	for _, x := range xs {
+		h = append(h, hex.EncodeToString([]byte(x)))
+	}
+	return strings.Join(h, ",")
+}
+
+type c16Lane struct {
+	srv *FcSrv
+	or  *Oracle
+}
+
+type c16ScanState struct {
+	c        *Ctx
+	lanes    chan *c16Lane
+	abort    atomic.Bool
+	mu       sync.Mutex
+	nDis     int
+	nDied    int
+	nConc    int
+	mini     string
+	reported map[string]bool
+}
+
+// run the real fc process on candidate files built from the offending bytes; returns a replay and
+// what happened when the property itself fails.
+func (st *c16ScanState) concretize(cands []string) (map[string]any, string, string) {
+	st.mu.Lock()
+	st.nConc++
+	k := st.nConc
+	st.mu.Unlock()
+	if k > 4 {
+		return nil, "", ""
+	}
+	c := st.c
+	for ci, src := range cands {
+		dir := filepath.Join(c.Work, fmt.Sprintf("scanq%d_%d", k, ci))
+		os.MkdirAll(dir, 0o755)
+		MustWrite(filepath.Join(dir, "m.fo"), src)
+		r := Run(dir, 20*time.Second, 4096, []string{"GOMAXPROCS=2"}, filepath.Join(c.Bin, "fc"), st.mini, "m.fo")
+		c.Count("real_process_runs")
+		out := r.Stdout + r.Stderr
+		_, gerr := os.Stat(filepath.Join(dir, "gen_m.go"))
+		os.RemoveAll(dir)
+		rep := map[string]any{"case": c16Case{Src: src, Kind: "scanner"}, "fc_exit": r.Exit, "fc_output": trunc(out, 2000),
+			"how": "fc <mini.foi> m.fo under timeout 20s, ulimit -v 4GB"}
+		switch {
+		case r.TimedOut:
+			return rep, "hang", "fc does not terminate (killed after 20 s)"
+		case c16BadOutput(out) != "":
+			return rep, "fatal", "fc dies of a Go runtime fatal error (" + c16BadOutput(out) + ")"
+		case r.Exit == 0 && gerr != nil:
+			return rep, "exit0", "fc exits 0 without writing gen_m.go"
+		case r.Exit != 0 && gerr == nil:
+			return rep, "wrote", "fc failed but wrote an output file for the offending input"
+		case r.Exit != 0 && strings.TrimSpace(strings.Replace(strings.Replace(out, "transpile: "+st.mini, "", 1), "transpile: m.fo", "", 1)) == "":
+			return rep, "nodiag", "fc exits non-zero without a diagnostic"
+		}
+	}
+	return nil, "", ""
+}
+
+func c16ScanCands(buf string, pos int) []string {
+	cands := []string{buf, "package main\n\n" + buf}
+	if pos > len(buf) {
+		pos = len(buf)
+	}
+	tail := buf[pos:]
+	cands = append(cands, "package main\n\nlet f () = 1\n"+tail, "package main\n\nlet f () =\n  g "+tail)
+	return cands
+}
+
+// report: a disagreement (impl != model) or a death (hang / fatal error of the in-process scanner)
+func (st *c16ScanState) report(what, op, buf string, pos int, impl, model string, died bool, cands []string) {
+	c := st.c
+	st.mu.Lock()
+	key := what + "|" + op
+	if died {
+		st.nDied++
+		c.Count("scanner_server_died=" + op)
+	} else {
+		st.nDis++
+	}
+	if st.nDied >= 3 || st.nDis >= 12 {
+		st.abort.Store(true)
+	}
+	seen := st.reported[key]
+	st.reported[key] = true
+	st.mu.Unlock()
+	if !died {
+		c.Disagree()
+	}
+	if seen {
+		return
+	}
+	if rep, name, msg := st.concretize(cands); rep != nil {
+		c.Violate(name, msg+" on an input derived from a "+op+" "+what, rep, false)
+		return
+	}
+	rep := map[string]any{"broken": "Front/Term.v " + op + " vs fc/wrapper.go", "op": op, "buf": buf, "buf_hex": hex.EncodeToString([]byte(buf)), "pos": pos,
+		"implementation": impl, "model": model}
+	if died {
+		c.Violate("scan-corr", "the in-process scanner hangs or dies ("+op+") where the model (theorems scan_total / tokenize_terminates / parse_sinterp_total) says it terminates; no failing fc run found", rep, true)
+	} else {
+		c.Violate("scan-corr", "scanner model and implementation disagree ("+op+"): impl "+trunc(impl, 80)+" / model "+trunc(model, 80), rep, true)
+	}
+}
+
+func (st *c16ScanState) withLane(f func(l *c16Lane)) {
+	l := <-st.lanes
+	defer func() { st.lanes <- l }()
+	f(l)
+}
+
+func (st *c16ScanState) checkScan(l *c16Lane, buf string, pos int) {
+	r := l.srv.Scan(buf, pos)
+	c := st.c
+	if r.Died {
+		st.report("buffer", "scanTokenAt", buf, pos, r.Err, "", true, c16ScanCands(buf, pos))
+		return
+	}
+	impl := c16ImplScan(r)
+	model := c16ModelScan(l.or.Ask("C16", fmt.Sprintf("(scan %s %d)", Sq(buf), pos)))
+	c.Compared(1)
+	c.Count("scan_outcome=" + strings.Fields(impl)[0])
+	if impl != model {
+		st.report("buffer", "scanTokenAt", buf, pos, impl, model, false, c16ScanCands(buf, pos))
+	}
+}
+
+func (st *c16ScanState) checkTokens(l *c16Lane, buf string) {
+	r := l.srv.Tokens(buf)
+	c := st.c
+	if r.Died {
+		st.report("buffer", "token stream", buf, 0, r.Err, "", true, c16ScanCands(buf, 0))
+		return
+	}
+	impl := c16ImplTokens(r)
+	model := c16ModelTokens(l.or.Ask("C16", fmt.Sprintf("(tokens %s)", Sq(buf))))
+	c.Compared(1)
+	c.CountN("stream_tokens", len(r.Toks))
+	if r.Ok {
+		c.Count("stream_outcome=EOF")
+	} else {
+		c.Count("stream_outcome=DIAG")
+	}
+	for _, t := range r.Toks {
+		c.Count("stream_tok=" + t.Type)
+	}
+	if impl != model {
+		// first differing token position, for the candidates
+		fi, fm := strings.Fields(impl), strings.Fields(model)
+		pos := 0
+		for i := 1; i < len(fi) && i < len(fm) && fi[i] == fm[i]; i++ {
+			var ty string
+			var b, ln int
+			p := strings.Split(fi[i], ":")
+			if len(p) >= 3 {
+				ty = p[0]
+				fmt.Sscan(p[1], &b)
+				fmt.Sscan(p[2], &ln)
+				_ = ty
+				pos = b + ln
+			}
+		}
+		st.report("buffer", "token stream", buf, pos, impl, model, false, c16ScanCands(buf, pos))
+	}
+}
+
+func (st *c16ScanState) checkSInterP(l *c16Lane, body string) {
+	r := l.srv.SInterP(body)
+	c := st.c
+	cands := []string{}
+	if !strings.Contains(strings.ReplaceAll(body, "\\\"", ""), "\"") && !strings.HasSuffix(body, "\\") {
+		cands = append(cands, "package main\n\nlet f (a:string) (b:string) =\n  $\""+body+"\"\n")
+	}
+	if r.Died {
+		st.report("string body", "ParseSInterP", body, 0, r.Err, "", true, cands)
+		return
+	}
+	line := l.or.Ask("C16", fmt.Sprintf("(sinterp %s)", Sq(body)))
+	impl, model := "DIAG", "DIAG"
+	if r.Ok {
+		impl = "OK " + hex.EncodeToString([]byte(r.Fmt)) + " [" + strings.Join(r.VarsH, ",") + "]"
+	}
+	if strings.HasPrefix(line, "OK ") {
+		q := c16Quoted(line)
+		model = "OK " + hex.EncodeToString([]byte(q[0])) + " [" + c16HexList(q[1:]) + "]"
+	}
+	c.Compared(1)
+	c.Count("sinterp_outcome=" + strings.Fields(impl)[0])
+	if r.Ok {
+		c.Count(fmt.Sprintf("sinterp_vars=%d", min(len(r.Vars), 3)))
+	}
+	if impl != model {
+		st.report("string body", "ParseSInterP", body, 0, impl, model, false, cands)
+	}
+}
+
+func (st *c16ScanState) checkReinterp(l *c16Lane, body string) {
+	r := l.srv.Reinterp(body)
+	c := st.c
+	if r.Died {
+		st.report("GoEval text", "reinterpretEscape", body, 0, r.Err, "", true, nil)
+		return
+	}
+	line := l.or.Ask("C16", fmt.Sprintf("(reinterp %s)", Sq(body)))
+	impl, model := "DIAG", "DIAG"
+	if r.Ok {
+		impl = "OK " + hex.EncodeToString([]byte(r.Fmt))
+	}
+	if strings.HasPrefix(line, "OK ") {
+		model = "OK " + hex.EncodeToString([]byte(c16Quoted(line)[0]))
+	}
+	c.Compared(1)
+	c.Count("reinterp_outcome=" + strings.Fields(impl)[0])
+	if impl != model {
+		st.report("GoEval text", "reinterpretEscape", body, 0, impl, model, false, nil)
+	}
+}
+
+// the buffer of a scanner-correspondence replay file
+func c16ReplayBuf(path string) string {
+	var doc struct {
+		Replay struct {
+			BufHex string `json:"buf_hex"`
+		} `json:"replay"`
+	}
+	b, err := os.ReadFile(path)
+	if err != nil {
+		panic(err)
+	}
+	if err := jsonUnmarshal(b, &doc); err != nil {
+		panic(err)
+	}
+	d, err := hex.DecodeString(doc.Replay.BufHex)
+	if err != nil {
+		panic(err)
+	}
+	return string(d)
+}
+
+func c16Scanner(c *Ctx, rng *Rng, cases []c16Case) {
+	const nLanes = 4
+	st := &c16ScanState{c: c, lanes: make(chan *c16Lane, nLanes), mini: c.MiniFoi(c.Work), reported: map[string]bool{}}
+	var all []*c16Lane
+	for i := 0; i < nLanes; i++ {
+		l := &c16Lane{srv: c.StartFcSrv(), or: c.NewOracle()}
+		all = append(all, l)
+		st.lanes <- l
+	}
+	defer func() {
+		for _, l := range all {
+			l.srv.Close()
+			l.or.Close()
+		}
+	}()
+
+	// the keyword table of the running binary against the table of the model
+	st.withLane(func(l *c16Lane) {
+		t := l.srv.Tables()
+		var kw []string
+		for k, v := range t.KeyWds {
+			kw = append(kw, k+":"+v)
+		}
+		sort.Strings(kw)
+		impl := strings.Join(kw, " ")
+		model := l.or.Ask("C16", "(keywords)")
+		c.Compared(1)
+		if impl != model {
+			c.Disagree()
+			c.Violate("scan-corr", "keywordMap of fc/wrapper.go differs from keyword_names of Front/Term.v",
+				map[string]any{"broken": "Front/Term.v keyword_names vs fc/wrapper.go keywordMap", "implementation": impl, "model": model}, true)
+		}
+	})
+
+	type job struct {
+		buf      string
+		everyPos bool
+		kind     string
+	}
+	var jobs []job
+	replayBuf, hasReplayBuf := "", false
+	if c.Replay != "" {
+		for _, cs := range cases {
+			if cs.Kind == "scanner-replay" {
+				replayBuf, hasReplayBuf = cs.Src, true
+				jobs = append(jobs, job{cs.Src, true, "replay"})
+			}
+		}
+	}
+	for _, h := range c16ScanHazards {
+		jobs = append(jobs, job{h, true, "hazard"})
+	}
+	// mutants of valid programs: the whole stream for many, every position for a few short ones
+	perm := rng.Perm(len(cases))
+	nStream, nEvery := 0, 0
+	for _, i := range perm {
+		s := cases[i].Src
+		if len(s) == 0 || len(s) > 6000 {
+			continue
+		}
+		if nEvery < c.Pick(4, 40) && len(s) <= 900 {
+			jobs = append(jobs, job{s, true, "mutant"})
+			nEvery++
+		} else if nStream < c.Pick(120, 4000) {
+			jobs = append(jobs, job{s, false, "mutant"})
+			nStream++
+		}
+		if nStream >= c.Pick(120, 4000) && nEvery >= c.Pick(4, 40) {
+			break
+		}
+	}
+	for i := 0; i < c.Pick(350, 30000); i++ {
+		jobs = append(jobs, job{c16RandBuf(rng, 22), true, "random"})
+	}
+	// the tail of a mutant glued behind a random prefix: long comments / strings that run to the end
+	for i := 0; i < c.Pick(30, 1500); i++ {
+		s := Choose(rng, cases).Src
+		if len(s) > 300 {
+			s = s[len(s)-300:]
+		}
+		jobs = append(jobs, job{c16RandBuf(rng, 8) + s + c16RandBuf(rng, 6), false, "random+mutant"})
+	}
+	Parallel(len(jobs), func(i int) {
+		if st.abort.Load() {
+			return
+		}
+		j := jobs[i]
+		st.withLane(func(l *c16Lane) {
+			c.Eval("scan:"+j.buf, true)
+			c.Count("scan_kind=" + j.kind)
+			st.checkTokens(l, j.buf)
+			if j.everyPos {
+				for p := 0; p <= len(j.buf)+1 && !st.abort.Load(); p++ {
+					st.checkScan(l, j.buf, p)
+				}
+			}
+		})
+	})
+
+	// ParseSInterP / reinterpretEscape on random bodies
+	var bodies []string
+	if hasReplayBuf {
+		bodies = append(bodies, replayBuf)
+	}
+	bodies = append(bodies, c16SInterpHazards...)
+	balpha := []string{"{", "{", "}", "}", "\\", "\\", "%", "a", "b", "x", " ", "\"", "n", "s", "d", ".", "\n", "$", "0"}
+	for i := 0; i < c.Pick(500, 30000); i++ {
+		n := rng.Intn(14)
+		var b strings.Builder
+		for k := 0; k < n; k++ {
+			if rng.Chance(1, 50) {
+				b.WriteByte(byte(rng.Intn(256)))
+			} else {
+				b.WriteString(Choose(rng, balpha))
+			}
+		}
+		bodies = append(bodies, b.String())
+	}
+	Parallel(len(bodies), func(i int) {
+		if st.abort.Load() {
+			return
+		}
+		st.withLane(func(l *c16Lane) {
+			c.Eval("sinterp:"+bodies[i], true)
+			st.checkSInterP(l, bodies[i])
+			if i%2 == 0 {
+				st.checkReinterp(l, bodies[i])
+			}
+		})
+	})
+	if st.abort.Load() {
+		c.Note("scanner correspondence stopped early after %d disagreements and %d server deaths", st.nDis, st.nDied)
+	}
+	c.Res.Rule += "; scanner model: scanTokenAt at every position + token stream + ParseSInterP/reinterpretEscape of hazard buffers, mutants and random buffers over a quote/backslash/brace/slash/star/dollar/digit/newline-rich alphabet against the extracted Coq model (type, begin, length, payload; both-diagnostic = agreement)"
+}
